@@ -238,6 +238,7 @@ def build():
         names = [e.name for e in I.cur_trace() if e.name in ("callback", "process_event_queue")]
         return VBool(names == ["callback", "process_event_queue"])
     C.helpers["drained_after_callback"] = drained_after_callback
+    C.helpers["n_drains"] = lambda I: VInt(len([e for e in I.cur_trace() if e.name == "process_event_queue"]))
 
     def on_opaque_call(I, fn, args, kwargs):
         """rely: a user callback may call any public DelayManager method of any manager (so the delay map and
@@ -317,6 +318,8 @@ def build():
          ensures=[("not pending: nothing happens", "implies(not old(pending(name)), n_callbacks() == 0)"),
                   ("pending: the callback runs now, once, with the stored arguments",
                    "implies(old(pending(name)), callback_is(old(cb_of(handle_of(name))), old(kw_of(handle_of(name)))))"),
+                  ("run_now may be called from inside an event handler: it never drains the event queue itself "
+                   "(handlers of different events must not nest)", "n_drains() == 0"),
                   ("the scheduled call is cancelled and the name freed before the callback runs",
                    "implies(old(pending(name)), not_pending_at_callback(name) and "
                    "handle_dead_at_callback(old(handle_of(name))))")],
@@ -366,7 +369,8 @@ def build():
         emit(I, "loop.schedule", handle=NONE, callback=VFn("bound", obj=this, name="_run", fc=C.fns["PeriodicTask._run"]),
              when=VReal(lc + iv))
     C.trace_helpers = {"n_scheduled", "scheduled_at", "scheduled_run", "cb_then_schedule", "n_callbacks",
-                       "callback_is", "not_pending_at_callback", "handle_dead_at_callback", "drained_after_callback"}
+                       "callback_is", "not_pending_at_callback", "handle_dead_at_callback", "drained_after_callback",
+                       "n_drains"}
     C.fn("PeriodicTask._schedule", emits=emit_schedule,
          ensures=[("cancelled: nothing is scheduled", "implies(self._canceled, n_scheduled() == 0)"),
                   ("running: exactly one call of _run at the absolute time last_call + interval",
